@@ -333,7 +333,7 @@ pub fn property() -> Property {
     add!("homogeneous-Q", "Q", homogeneous::<Q>, 5000, 400_000, 32);
     add!("homogeneous-Fp", "Fp", homogeneous::<Fp>, 5000, 400_000, 32);
     add!("to_homogeneous-i64", "i64", to_homogeneous_int::<i64>, 2000, 100_000, 16);
-    s.push(SubCheck { name: "float3-f64", scalar: "f64", quick: 3000, thorough: 400_000, len: 144, f: float3, required: &[("k-within-ulps-of-1", 100), ("k-far-from-1", 200), ("k-ordinary", 100)], rule: "k != 1 and a list of at least two points", exhaustive: false });
+    s.push(SubCheck { name: "float3-f64", scalar: "f64", quick: 3000, thorough: 400_000, len: 192, f: float3, required: &[("k-within-ulps-of-1", 100), ("k-far-from-1", 200), ("k-ordinary", 100)], rule: "k != 1 and a list of at least two points", exhaustive: false });
     Property {
         id: "C12",
         title: "Points form an affine space over vectors, with exact homogeneous coordinates",
